@@ -170,6 +170,23 @@ def disk_entry(cfg, q, k):
         return None
 
 
+_HOLDERS = {}
+
+
+def _call_args(opt, cfg, q):
+    """the three objects handed to the optimizer. With `same_objects` the caller keeps ONE inputs list, ONE output
+    list and ONE size dict for all its queries and updates them in place between queries (a sweep over bond
+    dimensions or networks): the optimizer must look at their contents, not at their identity."""
+    if not cfg.get("same_objects"):
+        return q["inputs"], q["output"], q["sizes"]
+    h = _HOLDERS.setdefault(id(opt), ([], [], {}))
+    h[0][:] = list(q["inputs"])
+    h[1][:] = list(q["output"])
+    h[2].clear()
+    h[2].update(q["sizes"])
+    return h
+
+
 def observe_op(opt, cfg, op):
     """Run one query on `opt`; return the observation (JSON-able dict)."""
     q = _as_query(op["q"])
@@ -193,12 +210,12 @@ def observe_op(opt, cfg, op):
             opt.update_from_tree(tree, overwrite=op["overwrite"])
             obs["outcome"] = "ok"
         elif obs["api"] == "call":
-            path = opt(q["inputs"], q["output"], q["sizes"])
+            path = opt(*_call_args(opt, cfg, q))
             obs["outcome"] = "ok"
             obs["path"] = _jsonable(path)
             obs["struct"] = path_struct(q, path)
         else:
-            tree = opt.search(q["inputs"], q["output"], q["sizes"])
+            tree = opt.search(*_call_args(opt, cfg, q))
             obs["outcome"] = "ok"
             obs["tree"] = {
                 "inputs": _jsonable(tree.inputs), "output": _jsonable(tree.output),
